@@ -74,6 +74,11 @@ impl Rng {
         }
         out
     }
+    /// random bytes of random length in lo..lo+span
+    pub fn vecn(&mut self, lo: usize, span: usize) -> Vec<u8> {
+        let n = lo + self.below(span.max(1));
+        self.vec(n)
+    }
     pub fn vec(&mut self, n: usize) -> Vec<u8> {
         (0..n).map(|_| self.next() as u8).collect()
     }
